@@ -590,7 +590,11 @@ func (g *seqGen) stmt() {
 			g.p.emit(opcode.ASSERT)
 		}
 	case k == 20:
-		g.stStructAlias()
+		if g.chance(1, 2, "map_burst") {
+			g.stMapBurst()
+		} else {
+			g.stStructAlias()
+		}
 	case k == 21:
 		if g.chance(1, 3, "early_ret") {
 			g.p.emit(opcode.RET)
@@ -684,6 +688,95 @@ func (g *seqGen) stMemcpy() {
 
 // stStructAlias: the clone-on-assign patterns. A struct (kept in a variable) is put into a container by
 // APPEND / SETITEM / PACK / VALUES, then the original is changed, then both are kept for the final dump.
+// stMapBurst works on ONE fresh map for a while: insertions, overwrites and removals over a six-key alphabet mixed
+// with reads of keys known to be present (the generator tracks the content), membership tests, KEYS / VALUES / SIZE;
+// everything read is appended to a result array kept in a slot. Aimed at the bookkeeping of a map whose entries
+// move when an earlier one is removed.
+func (g *seqGen) stMapBurst() {
+	mv, ok1 := g.anyVar()
+	rv, ok2 := g.anyVar()
+	if !ok1 || !ok2 || mv == rv {
+		g.stAssign()
+		return
+	}
+	g.p.emit(opcode.NEWMAP)
+	g.store(mv, aMap)
+	g.p.emit(opcode.NEWARRAY0)
+	g.store(rv, aArr)
+	pushKey := func(i int) {
+		if i < 4 {
+			g.p.pushSmall(i)
+		} else {
+			g.p.pushData([]byte{byte('a' + i - 4)}, 0)
+		}
+	}
+	var order []int // keys in insertion order
+	has := func(k int) bool {
+		for _, x := range order {
+			if x == k {
+				return true
+			}
+		}
+		return false
+	}
+	n := 4 + g.draw(10, "burst_n")
+	for i := 0; i < n; i++ {
+		k := g.draw(5, "burst_key")
+		switch op := g.draw(9, "burst_op"); {
+		case op <= 2 || len(order) == 0: // SETITEM
+			g.load(mv)
+			pushKey(k)
+			g.p.pushSmall(10 + i)
+			g.p.emit(opcode.SETITEM)
+			if !has(k) {
+				order = append(order, k)
+			}
+		case op <= 4: // REMOVE (mostly a present key, preferring one that is not the last inserted)
+			if g.chance(3, 4, "burst_rm_present") {
+				k = order[g.draw(len(order)-1, "burst_rm_idx")]
+				if len(order) > 1 && g.chance(2, 3, "burst_rm_early") {
+					k = order[g.draw(len(order)-2, "burst_rm_idx2")]
+				}
+			}
+			g.load(mv)
+			pushKey(k)
+			g.p.emit(opcode.REMOVE)
+			for j, x := range order {
+				if x == k {
+					order = append(order[:j:j], order[j+1:]...)
+					break
+				}
+			}
+		case op <= 6: // PICKITEM of a present key
+			k = order[g.draw(len(order)-1, "burst_pick_idx")]
+			g.load(rv)
+			g.load(mv)
+			pushKey(k)
+			g.p.emit(opcode.PICKITEM)
+			g.p.emit(opcode.APPEND)
+		case op == 7: // HASKEY of any key
+			g.load(rv)
+			g.load(mv)
+			pushKey(k)
+			g.p.emit(opcode.HASKEY)
+			g.p.emit(opcode.APPEND)
+		case op == 8:
+			g.load(rv)
+			g.load(mv)
+			g.p.emit([]opcode.Opcode{opcode.KEYS, opcode.VALUES, opcode.SIZE}[g.draw(2, "burst_all")])
+			g.p.emit(opcode.APPEND)
+		default: // overwrite a present key through a second reference
+			k = order[g.draw(len(order)-1, "burst_ow_idx")]
+			g.load(mv)
+			g.p.emit(opcode.DUP)
+			pushKey(k)
+			g.p.pushSmall(-10 - i)
+			g.p.emit(opcode.SETITEM)
+			g.p.emit(opcode.DROP)
+		}
+	}
+}
+
 func (g *seqGen) stStructAlias() {
 	sv, ok1 := g.anyVar()
 	cv, ok2 := g.anyVar()
